@@ -1,7 +1,7 @@
 \* default constants of the case generator (checks/c14.py writes per-run copies: Cpu = each CPU variant,
 \* K = 3 quick / 8 thorough = branch distances enumerated around both displacement limits, Salt = seed-derived
 \* number selecting the interior representatives).  The whole finite case graph is explored (exhaustive).
-CONSTANTS Cpu = "6502" K = 3 Salt = 1
+CONSTANTS Cpu = "6502" K = 3 Salt = 1 Step = 1
 INIT Init
 NEXT Next
 INVARIANTS UnitsTyped DecodeInverts OutOfRangeIsError Dump
